@@ -965,6 +965,23 @@ theorem stripped_authority_has_no_at (authority : Str) : 64 ∉ afterLastAt auth
 /-- non-vacuity: a token-style login with an empty user name is stripped -/
 example : stripUserinfo (lit "http://:token@a.example/dir/?q=a@b") = lit "http://a.example/dir/?q=a@b" := by decide
 
+/-- `no_preemptive_login_for_unchallenged_host`: sending a request adds NO Authorization of its own unless the hop URL
+carries a password or the hop's `hostname_with_port` is EXACTLY one of the hosts that answered a 401 in this session
+(`_hostnames_with_auth`, filled only by `_process_authentication`) — a host whose name merely ends with such a name
+(sub-domain, look-alike) gets nothing. -/
+theorem no_preemptive_login_for_unchallenged_host (cfg : Cfg) (s : Sess) (r : Req)
+    (hp : r.url.password = []) (hh : hostnameWithPort r.url ∉ s.hostsWithAuth) :
+    vals (sendPrep cfg s r).fields (title (lit "Authorization")) = vals r.fields (title (lit "Authorization")) := by
+  unfold sendPrep
+  simp only []
+  have hc : ¬ (r.url.password ≠ [] ∨ hostnameWithPort r.url ∈ s.hostsWithAuth) := by
+    intro h; rcases h with h | h
+    · exact h hp
+    · exact hh h
+  rw [if_neg hc, vals_prepareForSend]
+  have e : ¬ title (lit "Authorization") = title (lit "Host") := by decide
+  simp [e]
+
 def exUrlB : UrlC :=
   { scheme := lit "https", hostname := lit "b.example", port := 443, ipv6 := false, path := lit "/y", query := [],
     username := [], password := [], normUser := [], normPass := [] }
